@@ -36,8 +36,13 @@ def int_content(v):
     return v.to_bytes(n, "big", signed=True)
 
 
+NINE = set()     # values to write as nine content octets 01 xx*8 (= 2^64 + v: not the value, and out of range)
+
+
 def INT(v, pad=0):
     """INTEGER (tag 0x02), minimal plus `pad` redundant sign-extension octets."""
+    if v in NINE and 0 <= v < 2 ** 64:
+        return tlv(0x02, b"\x01" + v.to_bytes(8, "big"))
     c = int_content(v)
     return tlv(0x02, (b"\xff" if v < 0 else b"\x00") * pad + c)
 
